@@ -19,6 +19,8 @@ namespace Drv.Hs
 
 structure DState where
   H : Nat := 2
+  /-- measured on the tree under test: the key-mismatch branch refuses instead of asserting -/
+  fx : Bool := false
   st : State := init
   stack : List State := []
 
@@ -93,13 +95,13 @@ def deliverResp (d : DState) (node conn : Nat) (r : Response) (hint : Option Nat
   let before := peerIds d.st node
   match hint with
   | none =>
-    let res := step d.H d.st (.deliverResponse node conn r 0)
+    let res := step d.fx d.H d.st (.deliverResponse node conn r 0)
     if before.all fun j => (peerIds res.1 node).contains j then some res else none
   | some j =>
     if !before.contains j then none
     else
       (List.range (d.st.peers.length + 1)).findSome? fun pick =>
-        let res := step d.H d.st (.deliverResponse node conn r pick)
+        let res := step d.fx d.H d.st (.deliverResponse node conn r pick)
         if (peerIds res.1 node).contains j then none else some res
 
 inductive Exec
@@ -111,7 +113,7 @@ def parse2 (a b : String) : Option (Nat × Nat) := do some (← a.toNat?, ← b.
 
 def exec (d : DState) (toks : List String) : Exec :=
   let simple (o : Option Op) : Exec := match o with
-    | some op => .done (step d.H d.st op)
+    | some op => .done (step d.fx d.H d.st op)
     | none => .badOp
   match toks with
   | ["asign", k, n] => simple ((parse2 k n).map fun p => .attackerSign p.1 p.2)
@@ -137,8 +139,9 @@ def exec (d : DState) (toks : List String) : Exec :=
 
 def step' (d : DState) (line : String) : DState × String :=
   match line.trimAscii.toString.splitOn " " with
-  | ["reset"] => ({ H := 2 }, "-")
-  | ["reset", h] => ({ H := h.toNat?.getD 2 }, "-")
+  | ["reset"] => ({ H := 2, fx := d.fx }, "-")
+  | ["reset", h] => ({ H := h.toNat?.getD 2, fx := d.fx }, "-")
+  | ["flags", kv] => ({ d with fx := kv == "keymismatch=1" }, "-")
   | ["push"] => ({ d with stack := d.st :: d.stack }, "-")
   | ["pop"] =>
     match d.stack with
